@@ -47,6 +47,130 @@ type MessageBadLen struct {
 
 func (*MessageBadLen) GetID() uint32 { return 11 }
 
+// structs that are not MAVLink definitions in ways the run-time cannot survive (or silently mis-sizes): they must be
+// refused by Initialize, not fail at the first Write / Read
+type MessageBadUnexp struct {
+	A     uint8
+	count uint16 //nolint:unused
+}
+
+func (*MessageBadUnexp) GetID() uint32 { return 20 }
+
+type MessageBadStrArr struct{ S [3]string }
+
+func (*MessageBadStrArr) GetID() uint32 { return 21 }
+
+type MessageBadZeroArr struct {
+	A [0]uint8
+	B uint8
+}
+
+func (*MessageBadZeroArr) GetID() uint32 { return 22 }
+
+type MessageBadBigArr struct{ A [300]uint8 }
+
+func (*MessageBadBigArr) GetID() uint32 { return 23 }
+
+type MessageBadTooBig struct {
+	A [200]uint8
+	B [14]uint32
+}
+
+func (*MessageBadTooBig) GetID() uint32 { return 24 }
+
+type MessageBadLenNeg struct {
+	S string `mavlen:"-3"`
+}
+
+func (*MessageBadLenNeg) GetID() uint32 { return 25 }
+
+type MessageBadLenZero struct {
+	S string `mavlen:"0"`
+	B uint8
+}
+
+func (*MessageBadLenZero) GetID() uint32 { return 26 }
+
+type MessageBadLenBig struct {
+	S string `mavlen:"300"`
+}
+
+func (*MessageBadLenBig) GetID() uint32 { return 27 }
+
+type MessageBadExtFirst struct {
+	A uint8 `mavext:"true"`
+	B uint32
+}
+
+func (*MessageBadExtFirst) GetID() uint32 { return 28 }
+
+type MessageBadWide struct{ A [40]uint64 } // one field of 320 bytes: the byte-wide size wraps to 64
+
+func (*MessageBadWide) GetID() uint32 { return 29 }
+
+type MessageBadExact struct { // 256 bytes: one more than fits
+	A [31]uint64
+	B [8]uint8
+}
+
+func (*MessageBadExact) GetID() uint32 { return 30 }
+
+// defined types over a supported kind, without the enum tag: not fields of a message (the codec dispatches on the exact type)
+type Celsius float32
+
+type MessageBadNamed struct {
+	T [2]Celsius
+	B uint8
+}
+
+func (*MessageBadNamed) GetID() uint32 { return 32 }
+
+type MessageBadNamedEnum struct {
+	K UEnum // the `mavenum` tag was lost
+	V uint32
+}
+
+func (*MessageBadNamedEnum) GetID() uint32 { return 33 }
+
+// the largest struct that IS a definition (255 bytes, array of 255): accepted and usable
+type MessageUserMax struct {
+	A [255]uint8
+}
+
+func (*MessageUserMax) GetID() uint32 { return 31 }
+
+var malformed = []message.Message{&MessageBadUnexp{}, &MessageBadStrArr{}, &MessageBadZeroArr{}, &MessageBadBigArr{}, &MessageBadTooBig{},
+	&MessageBadLenNeg{}, &MessageBadLenZero{}, &MessageBadLenBig{}, &MessageBadExtFirst{}, &MessageBadWide{}, &MessageBadExact{}, &MessageBadNamed{}, &MessageBadNamedEnum{}}
+
+// implDuse: first use of one message struct (init, write the zero value in both versions, read an empty and a full payload)
+func implDuse(t []string) (out string) {
+	id := uint32(atoiU(t[2]))
+	var m message.Message
+	for _, c := range getDialect(t[1]).Messages {
+		if c.GetID() == id {
+			m = c
+		}
+	}
+	if m == nil {
+		return "no-such-message"
+	}
+	rw := &message.ReadWriter{Message: m}
+	if err := rw.Initialize(); err != nil {
+		return "init-err"
+	}
+	defer func() {
+		if r := recover(); r != nil {
+			out = "panic"
+		}
+	}()
+	zero := reflect.New(reflect.TypeOf(m).Elem()).Interface().(message.Message)
+	rw.Write(zero, false)
+	rw.Write(zero, true)
+	rw.Read(&message.MessageRaw{ID: id, Payload: []byte{}}, true)           //nolint:errcheck
+	rw.Read(&message.MessageRaw{ID: id, Payload: make([]byte, 255)}, true) //nolint:errcheck
+	return "ok"
+}
+
 type NotMessagePrefix struct{ A uint8 }
 
 func (*NotMessagePrefix) GetID() uint32 { return 12 }
@@ -65,6 +189,12 @@ func init() {
 	dialects["fwb"] = &dialect.Dialect{Version: 1, Messages: []message.Message{&telb.MessageStatus{}}}
 	// a malformed struct AND a duplicate: the first problem in list order is reported
 	dialects["badboth"] = &dialect.Dialect{Version: 1, Messages: []message.Message{one, &MessageBadBool{}, one}}
+	for i, m := range malformed {
+		dn := fmt.Sprintf("badform%d", i)
+		dialects[dn] = &dialect.Dialect{Version: 1, Messages: []message.Message{one, m}}
+		badDialects = append(badDialects, dn)
+	}
+	dialects["usermax"] = &dialect.Dialect{Version: 1, Messages: []message.Message{one, &MessageUserMax{}}}
 	dialects["badboth2"] = &dialect.Dialect{Version: 1, Messages: []message.Message{one, one, &MessageBadBool{}}}
 }
 
@@ -154,6 +284,11 @@ func genC17(r *rngT, n int, tier string) {
 				stat("c17-absent")
 			}
 		}
+		if strings.HasPrefix(dn, "user") {
+			for id := range ids {
+				execOp(fmt.Sprintf("duse %s %d", dn, id))
+			}
+		}
 		if !strings.HasPrefix(dn, "user") && !strings.HasPrefix(dn, "fw") {
 			for id := range ids {
 				execOp(fmt.Sprintf("dtype %s %d", dn, id))
@@ -184,6 +319,9 @@ func genC17(r *rngT, n int, tier string) {
 			execOp(fmt.Sprintf("defmsg %s %d %s %s", dn, m.GetID(), name, body))
 		}
 		execOp("dinit " + dn)
+		for _, m := range getDialect(dn).Messages {
+			execOp(fmt.Sprintf("duse %s %d", dn, m.GetID()))
+		}
 		stat("c17-rejected-dialect")
 	}
 }
